@@ -214,6 +214,43 @@ def check_key_object(case):
     return True, labels + ["key-object", case["wrap"]]
 
 
+# ---- an illegal key among many legal ones ------------------------------------------------------------------------------
+
+BAD_IN_LIST = [b"bad\r\n", b" lead", b"trail ", b"a\tb", b"mid dle", b"nul\x00", b"k" * 251, "caf\u00e9", b"\r\nflush_all", b"vt\x0b", b"trail\n"]
+
+
+def list_cases(tier, seed):
+    for n in (1, 2, 127, 128, 129, 1000) if tier == "quick" else (1, 2, 3, 64, 127, 128, 129, 255, 256, 1000, 5000):
+        for bi in range(len(BAD_IN_LIST)):
+            for pos in ("first", "middle", "last"):
+                for kind in ("client", "pooled", "hash"):
+                    for op in ("get_many", "gets_many", "delete_many", "set_many"):
+                        if tier == "quick" and (bi + n + len(pos) + len(op)) % 3 and n not in (128, 129):
+                            continue
+                        yield {"n": n, "bad": bi, "pos": pos, "kind": kind, "op": op, "prefix": b"" if (bi + n) % 2 else b"p:"}
+
+
+def check_list(case):
+    """a multi-key call with n keys of which exactly one is illegal, wherever it stands and however long the list is, is refused
+    with MemcacheIllegalInputError - and on Client and PooledClient nothing at all is sent"""
+    n, bad, kind, op = case["n"], BAD_IN_LIST[case["bad"]], case["kind"], case["op"]
+    keys = ["key-%d" % i for i in range(n)]
+    i = {"first": 0, "middle": n // 2, "last": n - 1}[case["pos"]]
+    keys[i] = bad
+    env = Env()
+    c = env.client(kind, key_prefix=case["prefix"], default_noreply=False)
+    mark = len(env.net.log)
+    r = env.call(getattr(c, op), {k: b"v" for k in keys}) if op == "set_many" else env.call(getattr(c, op), keys)
+    desc = "%s of %d keys on %s (prefix %r) with the illegal key %r %s" % (op, n, kind, case["prefix"], bad, case["pos"])
+    if r[0] == "ok":
+        raise Violation(["list", "accepted-illegal", op], "accepted (returned %s; the server parsed %r, errors %r): %s" % (repr(r[1])[:80], env.server.log[-2:], env.server.errors[:2], desc))
+    if not isinstance(r[1], MemcacheIllegalInputError):
+        raise Violation(["list", "wrong-exception", type(r[1]).__name__], "rejected with %r instead of MemcacheIllegalInputError: %s" % (r[1], desc))
+    if kind != "hash" and any(e[3] == "sendall" for e in env.net.log[mark:]):
+        raise Violation(["list", "sent-before-reject", op], "bytes were written although one key is illegal: %s" % desc)
+    return True, ["list", op, "n=%d" % n]
+
+
 def _paths_cheap():
     return ["helper", "client", "pooled"]
 
@@ -439,6 +476,7 @@ def random_strategy(tier):
 
 
 PARTS = [
+    Part("an-illegal-key-among-many", "enum", check_list, cases=list_cases, exhaustive=True),
     Part("key-objects", "enum", check_key_object, cases=key_object_cases, exhaustive=True),
     Part("class-exhaustive", "enum", check, cases=class_cases, exhaustive=True),
     Part("full-alphabet-short", "enum", check, cases=full_alphabet_cases, exhaustive=True),
